@@ -165,6 +165,8 @@ class State(object):
 
     def lower(self, d):
         lo = self.irange(d)[0]
+        if d.t and lo < 0 and self.facts and len(d.t) <= 2:
+            lo = max(lo, self.dbm_lower(d))
         if d.t:
             dmap = dict(d.t)
             for f in self.facts:
@@ -199,6 +201,56 @@ class State(object):
 
     def upper(self, d):
         return -self.lower(-d)
+
+    def dbm_lower(self, d):
+        """Lower bound of  x - y + k  (or  x + k, -y + k) from chains of difference facts (Bellman-Ford)."""
+        if not (1 <= len(d.t) <= 2) or any(abs(k) != 1 for a, k in d.t):
+            return -INF
+        pos = [a for a, k in d.t if k == 1]
+        neg = [a for a, k in d.t if k == -1]
+        if len(pos) > 1 or len(neg) > 1:
+            return -INF
+        x = pos[0] if pos else None          # None stands for the constant 0
+        y = neg[0] if neg else None
+        # edges u -> v with weight w meaning  v - u <= w
+        edges = []
+        nodes = set([x, y, None])
+        for f in self.facts:
+            if not (1 <= len(f.t) <= 2) or any(abs(k) != 1 for a, k in f.t):
+                continue
+            fp = [a for a, k in f.t if k == 1]
+            fn = [a for a, k in f.t if k == -1]
+            if len(fp) > 1 or len(fn) > 1:
+                continue
+            u = fp[0] if fp else None
+            v = fn[0] if fn else None
+            # u - v + c >= 0  =>  v - u <= c
+            edges.append((u, v, f.c))
+            nodes.add(u)
+            nodes.add(v)
+        if len(nodes) > 60:
+            return -INF
+        for a in nodes:
+            if a is None:
+                continue
+            lo, hi = self.arange(a)
+            if hi < INF:
+                edges.append((None, a, hi))          # a - 0 <= hi
+            if lo > -INF:
+                edges.append((a, None, -lo))         # 0 - a <= -lo
+        # want upper bound of y - x = dist(x -> y);  x - y >= -dist
+        dist = {x: 0}
+        for _ in range(len(nodes)):
+            changed = False
+            for (u, v, w) in edges:
+                if u in dist and dist[u] + w < dist.get(v, INF):
+                    dist[v] = dist[u] + w
+                    changed = True
+            if not changed:
+                break
+        if y not in dist:
+            return -INF
+        return d.c - dist[y]
 
     def range(self, d):
         return self.lower(d), self.upper(d)
@@ -245,6 +297,8 @@ class State(object):
                 return False
             if (lo, hi) != self.arange(a):
                 self.rng[a] = (lo, hi)
+                if self.nefacts and not self.trim(a):
+                    return False
                 return self.propagate()
             return True
         # integer tightening: g*(sum) + c >= 0  <=>  sum + floor(c/g) >= 0
@@ -314,15 +368,33 @@ class State(object):
         sa = d.single_atom()
         if sa is not None and abs(sa[1]) == 1:
             a, k, c = sa
-            v = -c * k                       # atom value excluded
-            lo, hi = self.arange(a)
-            if v == lo:
-                self.rng[a] = (lo + 1, hi)
-                return lo + 1 <= hi
-            if v == hi:
-                self.rng[a] = (lo, hi - 1)
-                return lo <= hi - 1
+            self.nefacts.add(d)
+            return self.trim(a)
         self.nefacts.add(d)
+        return True
+
+    def trim(self, a):
+        """Shrink the range of atom a past excluded end values; False when nothing is left."""
+        lo, hi = self.arange(a)
+        if lo <= -INF or hi >= INF:
+            return True
+        excl = set()
+        for f in self.nefacts:
+            sa = f.single_atom()
+            if sa is not None and sa[0] == a and abs(sa[1]) == 1:
+                excl.add(-sa[2] * sa[1])
+        changed = False
+        while lo <= hi and lo in excl:
+            lo += 1
+            changed = True
+        while lo <= hi and hi in excl:
+            hi -= 1
+            changed = True
+        if lo > hi:
+            return False
+        if changed:
+            self.rng[a] = (lo, hi)
+            return self.propagate()
         return True
 
     # ------------------------------------------------------------------ witnesses
@@ -352,39 +424,84 @@ class State(object):
         for f in rel_ne:
             atoms |= base_atoms(f)
         atoms = sorted(atoms, key=repr)
-        if len(atoms) > 7:
+        if len(atoms) > 12:
             return None
-        cands = []
+        pool = set([0, 1, 2, 3])
+        rngs = {}
         for a in atoms:
             lo, hi = self.arange(a)
             if lo <= -INF:
                 lo = -(1 << 63)
             if hi >= INF:
                 hi = (1 << 64) - 1
-            c = {lo, hi, min(lo + 1, hi), max(hi - 1, lo), min(max(0, lo), hi), min(max(1, lo), hi)}
-            for p in (7, 8, 15, 16, 31, 32, 63):
-                for v in ((1 << p) - 1, 1 << p, (1 << p) + 1):
-                    if lo <= v <= hi:
-                        c.add(v)
-            cands.append(sorted(c))
-        import itertools
-        n = 0
-        for combo in itertools.product(*cands):
-            n += 1
-            if n > limit:
-                break
-            env = dict(zip(atoms, combo))
-            try:
-                if any(eval_lin(f, env) < 0 for f in rel_facts):
-                    continue
-                if any(eval_lin(f, env) == 0 for f in rel_ne):
-                    continue
-                vals = [eval_lin(l, env) for l in lins]
-            except KeyError:
-                continue
-            if want(vals):
-                return env
-        return None
+            rngs[a] = (lo, hi)
+            for v in (lo, hi):
+                for dlt in (-2, -1, 0, 1, 2):
+                    pool.add(v + dlt)
+        for f in rel_facts + list(rel_ne):
+            for dlt in (-1, 0, 1):
+                pool.add(-f.c + dlt)
+                pool.add(f.c + dlt)
+        for p in (7, 8, 15, 16, 31, 32, 63):
+            for v in ((1 << p) - 1, 1 << p):
+                pool.add(v)
+        cands = {}
+        for a in atoms:
+            lo, hi = rngs[a]
+            c = sorted(v for v in pool if lo <= v <= hi)
+            if len(c) > 14:
+                # keep the extremes and the small values
+                c = sorted(set(c[:7] + c[-7:]))
+            cands[a] = c or [lo]
+        # order atoms: those appearing in most facts first; check a fact as soon as all its atoms are assigned
+        fact_atoms = [(f, base_atoms(f)) for f in rel_facts]
+        ne_atoms = [(f, base_atoms(f)) for f in rel_ne]
+        order = sorted(atoms, key=lambda a: -sum(1 for f, fa in fact_atoms if a in fa))
+        lin_atoms = set()
+        for l in lins:
+            base_atoms(l, lin_atoms)
+        env = {}
+        budget = [limit * 5]
+
+        def consistent(last):
+            for f, fa in fact_atoms:
+                if last in fa and all(x in env for x in fa):
+                    try:
+                        if eval_lin(f, env) < 0:
+                            return False
+                    except KeyError:
+                        pass
+            for f, fa in ne_atoms:
+                if last in fa and all(x in env for x in fa):
+                    try:
+                        if eval_lin(f, env) == 0:
+                            return False
+                    except KeyError:
+                        pass
+            return True
+
+        def rec(k):
+            if budget[0] <= 0:
+                return None
+            if k == len(order):
+                try:
+                    vals = [eval_lin(l, env) for l in lins]
+                except KeyError:
+                    return None
+                return dict(env) if want(vals) else None
+            a = order[k]
+            for v in cands[a]:
+                budget[0] -= 1
+                env[a] = v
+                if consistent(a):
+                    r = rec(k + 1)
+                    if r is not None:
+                        return r
+                del env[a]
+                if budget[0] <= 0:
+                    break
+            return None
+        return rec(0)
 
     # ------------------------------------------------------------------ misc
     def ev(self, *e):
